@@ -23,6 +23,7 @@ import (
 func mainC23(r *vh.Run) {
 	primsTrees(r)
 	writerDispatch(r)
+	readerDispatch(r)
 	markerSearch(r)
 	sampleStringSearch(r)
 }
@@ -269,7 +270,14 @@ func inflatable(b []byte) [][]byte {
 		if e < 0 {
 			break
 		}
-		zr, err := zlib.NewReader(bytes.NewReader(b[s : s+e]))
+		seg := b[s : s+e]
+		if hx := bytes.TrimRight(bytes.TrimSpace(seg), ">"); len(hx) >= 8 && len(hx)%2 == 0 {
+			if raw, err := hex.DecodeString(string(hx)); err == nil { // ASCIIHexDecode in front
+				out = append(out, raw)
+				seg = raw
+			}
+		}
+		zr, err := zlib.NewReader(bytes.NewReader(seg))
 		if err != nil {
 			continue
 		}
@@ -331,6 +339,12 @@ func markerSearch(r *vh.Run) {
 					where := containsAny(enc, infl, m.Text)
 					r.Count("searched:" + m.Loc)
 					switch {
+					case m.Identity:
+						// the stream's only filter is the Identity crypt filter: not enciphered by definition
+						if where != "" {
+							r.Count("identity-crypt-filter-stream-in-clear")
+						}
+						r.OracleOK()
 					case m.Sig:
 						// signature values may stay in clear (the one exemption inside objects)
 						if where != "" {
@@ -341,6 +355,10 @@ func markerSearch(r *vh.Run) {
 						r.OracleOK()
 					default:
 						class := "plaintext:" + m.Loc
+						if strings.Contains(m.Loc, "crypt-stdcf") {
+							// sole filter /Crypt naming a NON-Identity crypt filter: the writer skips it like Identity
+							class = "plaintext:sole-crypt-filter-not-identity"
+						}
 						if lazyN > 0 && strings.HasPrefix(m.Loc, "private-") {
 							class = "plaintext:lazy-objstream-member"
 						}
@@ -466,5 +484,50 @@ func sampleStringSearch(r *vh.Run) {
 				r.OracleFail(class, map[string]any{"doc": d.Name, "alg": a.Name, "string": vh.Hex(trunc(s))}, "a string of the document is present in clear in the encrypted output")
 			}
 		}
+	}
+}
+
+
+// ---- K: the reader's per-stream decision (crypt filter / empty data / unencrypted metadata) ----
+
+var filterLists = [][]string{nil, {"Crypt"}, {"FlateDecode"}, {"Crypt", "FlateDecode"}, {"FlateDecode", "Crypt"},
+	{"Crypt", "ASCIIHexDecode", "FlateDecode"}, {"Crypt", "Crypt"}, {"ASCIIHexDecode"}, {"crypt"}, {"Crypt", "Crypt", "FlateDecode"}}
+
+func readerDispatch(r *vh.Run) {
+	n := r.Pick(400, 4000)
+	for i := 0; i < n; i++ {
+		objNr, gen := 1+r.Rand.Intn(1<<16), r.Rand.Intn(2)
+		rev := []int{2, 3}[r.Rand.Intn(2)]
+		key := rbytes(r, []int{5, 16}[rev-2])
+		fl := filterLists[i%len(filterLists)]
+		ty := []string{"", "Metadata", "EmbeddedFile", "XObject", "ObjStm"}[r.Rand.Intn(5)] // not XRef: xref streams never reach this function with a ctx
+		emd := r.Rand.Intn(3) != 0
+		raw := rbytes(r, []int{0, 1, 16, 40}[r.Rand.Intn(4)])
+		d := types.NewDict()
+		tree := "D0"
+		if ty != "" {
+			d["Type"] = types.Name(ty)
+			tree = "D1 k" + vh.Hex([]byte("Type")) + " N" + vh.Hex([]byte(ty))
+		}
+		l := int64(len(raw))
+		sd := &types.StreamDict{Dict: d, Raw: clone(raw), StreamLength: &l}
+		var fh []string
+		for j, f := range fl {
+			pf := types.PDFFilter{Name: f}
+			if f == "Crypt" && j == 0 && r.Rand.Intn(2) == 0 {
+				pf.DecodeParms = types.Dict{"Name": types.Name("Identity")}
+			}
+			sd.FilterPipeline = append(sd.FilterPipeline, pf)
+			fh = append(fh, vh.Hex([]byte(f)))
+		}
+		ctx, _ := newWriteCtx(objNr, gen, *sd, key, rev)
+		ctx.E.Emd = emd
+		err := guard(func() error { return pdfcpu.VerifC22SaveDecodedStreamContent(ctx, sd, objNr, gen, false) })
+		res := "err"
+		if err == nil {
+			res = "ok:" + vh.Hex(sd.Raw)
+		}
+		r.Case("readStream", []string{tree, strings.Join(fh, ","), vh.Hex(raw), vh.Bool(emd), vh.Int(int64(objNr)), vh.Int(int64(gen)), vh.Hex(key), vh.Int(int64(rev))}, res)
+		r.Count("class:reader-filters=" + strings.Join(fl, "+"))
 	}
 }
